@@ -61,7 +61,7 @@ Theorem C07_getmember_is_last :
 Proof. intros P. exact ar_getmember_last. Qed.
 
 (** every candidate name passes the extension gate of DebPart.tgz() *)
-Theorem C07_gate_admits_candidates :
+Theorem C07_gate_passes_candidates :
   forall c, In c (candidates CTRL_PART ++ candidates DATA_PART) -> ext_gate c = true.
 Proof. intros c H. pose proof gate_candidates as G. rewrite forallb_forall in G. now apply G. Qed.
 
@@ -305,7 +305,7 @@ Print Assumptions C07_deb_accept_spec.
 Print Assumptions C07_reject_is_deberror.
 Print Assumptions C07_accepted_parts.
 Print Assumptions C07_getmember_is_last.
-Print Assumptions C07_gate_admits_candidates.
+Print Assumptions C07_gate_passes_candidates.
 Print Assumptions C07_spelling_invariant.
 Print Assumptions C07_spellings_lookup.
 Print Assumptions C07_key_ok_plain.
